@@ -172,12 +172,12 @@ record("InMemoryAlignmentStorage", {
     "alignment_end_index": "dict[int,int]", "counter": "int", "alignment_storage": STO, "index_filled": "bool"})
 
 
-@spec("list[tuple[int,rec:Aligned]], int -> int")
+@spec("list[tuple[int,rec:Aligned]], int -> int", opaque=True)
 def sb(S, i):
     return S[i][1].reference_start // 256
 
 
-@spec("list[tuple[int,rec:Aligned]], int -> int")
+@spec("list[tuple[int,rec:Aligned]], int -> int", opaque=True)
 def eb(S, i):
     return (S[i][1].reference_end - 1) // 256
 
@@ -212,24 +212,94 @@ lemma("nhits_none", {"region": "tuple[int,int]", "S": STO, "a": "int", "d": "int
       requires=["0 <= a", "d >= 0", "a + d <= len(S)", "all(not hits(region, S[i]) for i in range(a, a + d))"],
       ensures=["nhits(region, S, a + d) == nhits(region, S, a)"], induct="d", base="0")
 
-@spec("list[tuple[int,rec:Aligned]], dict[int,int], dict[int,int] -> bool")
-def raw_ok(S, si, ei):
-    # what a sequence of add_alignment calls leaves behind: for every bin that some alignment starts (ends) in, the index of the
-    # first such alignment; no other keys
+@spec("list[tuple[int,rec:Aligned]], dict[int,int] -> bool")
+def raw_start_ok(S, si):
+    # what a sequence of add_alignment calls leaves behind: for every bin that some alignment starts in, the index of the first such
+    # alignment; no other keys
     return (all(0 <= si[p] < len(S) and sb(S, si[p]) == p and all(sb(S, i) != p for i in range(si[p])) for p in si) and
-            all(sb(S, i) in si for i in range(len(S))) and
-            all(0 <= ei[p] < len(S) and eb(S, ei[p]) == p and all(eb(S, i) != p for i in range(ei[p])) for p in ei) and
+            all(sb(S, i) in si for i in range(len(S))))
+
+
+@spec("list[tuple[int,rec:Aligned]], dict[int,int] -> bool")
+def raw_end_ok(S, ei):
+    return (all(0 <= ei[p] < len(S) and eb(S, ei[p]) == p and all(eb(S, i) != p for i in range(ei[p])) for p in ei) and
             all(eb(S, i) in ei for i in range(len(S))))
 
 
+@spec("list[tuple[int,rec:Aligned]], dict[int,int], dict[int,int] -> bool")
+def raw_ok(S, si, ei):
+    return raw_start_ok(S, si) and raw_end_ok(S, ei)
+
+
+_S, _SI, _EI = "self.alignment_storage", "self.alignment_start_index", "self.alignment_end_index"
+_BE = "(self.region[1] // 256)"
+_Q = "(self.region[1] // 256 + 2 - _k%d)"
+_START_DONE = ("all(p in %(si)s and 0 <= %(si)s[p] <= len(%(S)s) and all(sb(%(S)s, i) < p for i in range(%(si)s[p])) and "
+               "all(sb(%(S)s, i) >= p for i in range(%(si)s[p], len(%(S)s))) for p in range(%(lo)s, %(be)s + 2))")
+_END_DONE = ("all(p in %(ei)s and 0 <= %(ei)s[p] <= len(%(S)s) and all(eb(%(S)s, i) < p for i in range(%(ei)s[p])) "
+             "for p in range(%(lo)s, %(be)s + 2))")
+_F = {"S": _S, "si": _SI, "ei": _EI, "be": _BE}
 contract(A + "InMemoryAlignmentStorage.fill_index", {"self": "rec:InMemoryAlignmentStorage"}, returns="none", props=["C05"],
-         modifies=["self.alignment_start_index", "self.alignment_end_index", "self.index_filled"], trusted=True,
-         note="ASSUMED by get_alignments. A deductive attempt (raw first-occurrence index as precondition, two downward-sweep "
-              "invariants) discharged 33 of 34 obligations, one preservation VC stayed unknown within budget, so nothing of it is "
-              "counted; decided only by the bounded native check C05.inmemory_index (real add_alignment + fill_index)",
-         requires=["self.region is not None", "sorted_by_start(self.alignment_storage)"],
+         modifies=["self.alignment_start_index", "self.alignment_end_index", "self.index_filled"],
+         # what a sequence of add_alignment calls (in start order) leaves behind, and every alignment inside the hull region
+         # the bins sb / eb of the stored alignments are opaque here: all the sweep needs is that start bins are non-decreasing (start
+         # order), that every bin lies inside the region's bins, and what add_alignment left in the two raw indexes
+         requires=["self.region is not None", "0 <= self.region[0] <= self.region[1]",
+                   "all(sb(%s, i) <= sb(%s, j) for i in range(len(%s)) for j in range(i + 1, len(%s)))" % (_S, _S, _S, _S),
+                   "all(self.region[0] // 256 <= sb(%s, i) and sb(%s, i) <= eb(%s, i) and eb(%s, i) <= self.region[1] // 256 for i in range(len(%s)))" % (_S, _S, _S, _S, _S),
+                   "index_ok(%s, %s, %s, self.region[0] // 256, self.region[1] // 256 + 1) if self.index_filled else raw_ok(%s, %s, %s)" % (_S, _SI, _EI, _S, _SI, _EI)],
          ensures=["index_ok(self.alignment_storage, self.alignment_start_index, self.alignment_end_index, "
-                  "self.region[0] // 256, self.region[1] // 256 + 1)"])
+                  "self.region[0] // 256, self.region[1] // 256 + 1)"],
+         loops={0: {"inv": [
+             "0 <= current_index <= len(%s)" % _S,
+             "all(sb(%s, i) < %s for i in range(current_index))" % (_S, _Q % 0),
+             "all(sb(%s, i) >= %s for i in range(current_index, len(%s)))" % (_S, _Q % 0, _S),
+             _START_DONE % dict(_F, lo=_Q % 0),
+             "all(p >= %s or (0 <= %s[p] < len(%s) and sb(%s, %s[p]) == p and all(sb(%s, i) != p for i in range(%s[p]))) for p in %s)"
+             % (_Q % 0, _SI, _S, _S, _SI, _S, _SI, _SI),
+             "all(sb(%s, i) in %s for i in range(len(%s)))" % (_S, _SI, _S),
+             "%s == old(%s)" % (_EI, _EI)]},
+                1: {"inv": [
+             "0 <= current_index <= len(%s)" % _S,
+             "all(eb(%s, i) < %s for i in range(current_index))" % (_S, _Q % 1),
+             _START_DONE % dict(_F, lo="(self.region[0] // 256)"),
+             _END_DONE % dict(_F, lo=_Q % 1),
+             "all(p >= %s or (0 <= %s[p] < len(%s) and eb(%s, %s[p]) == p and all(eb(%s, i) != p for i in range(%s[p]))) for p in %s)"
+             % (_Q % 1, _EI, _S, _S, _EI, _S, _EI, _EI),
+             "all(eb(%s, i) in %s for i in range(len(%s)))" % (_S, _EI, _S)]}},
+         native_args=lambda am: _mem_args(am), gen=lambda rng, n: ({"self": d["self"]} for d in _gen_mem(rng, n)),
+         timeout=40000)
+
+
+# add_alignment (in-memory): the raw indexes record the first alignment starting / ending in each bin - what fill_index starts from
+contract(A + "AbstractAlignmentStorage.add_alignment#inmemory", {"self": "rec:InMemoryAlignmentStorage", "bam_index": "int", "alignment": "rec:Aligned"},
+         returns="none", props=["C05"], modifies=["self.coverage_dict", "self.region"], native=False,
+         requires=["0 <= alignment.reference_start < alignment.reference_end"],
+         ensures=["self.region == ((alignment.reference_start, alignment.reference_end - 1) if old(self.region) is None else "
+                  "(min(old(self.region)[0], alignment.reference_start), max(old(self.region)[1], alignment.reference_end - 1)))"],
+         loops={0: {"inv": ["self.region == old(self.region)"]}})
+
+contract(A + "InMemoryAlignmentStorage.add_alignment", {"self": "rec:InMemoryAlignmentStorage", "bam_index": "int", "alignment": "rec:Aligned"},
+         returns="none", props=["C05"],
+         modifies=["self.coverage_dict", "self.region", "self.alignment_start_index", "self.alignment_end_index", "self.counter",
+                   "self.alignment_storage", "self.index_filled"],
+         bind={"call:add_alignment": A + "AbstractAlignmentStorage.add_alignment#inmemory"}, reveal=["sb", "eb"],
+         requires=["0 <= alignment.reference_start < alignment.reference_end", "sorted_by_start(%s)" % _S, "self.counter == len(%s)" % _S,
+                   # alignments arrive in start order (coordinate-sorted BAM)
+                   "len(%s) == 0 or %s[len(%s) - 1][1].reference_start <= alignment.reference_start" % (_S, _S, _S),
+                   "raw_ok(%s, %s, %s)" % (_S, _SI, _EI),
+                   "(self.region is None) == (len(%s) == 0)" % _S,
+                   "self.region is None or all(self.region[0] <= %s[i][1].reference_start and %s[i][1].reference_end - 1 <= self.region[1] for i in range(len(%s)))" % (_S, _S, _S)],
+         ensures=["len(%s) == len(old(%s)) + 1" % (_S, _S), "%s[:len(old(%s))] == old(%s)" % (_S, _S, _S),
+                  "%s[len(%s) - 1] == (bam_index, alignment)" % (_S, _S),
+                  "sorted_by_start(%s)" % _S, "self.counter == len(%s)" % _S, "not self.index_filled",
+                  "raw_start_ok(%s, %s)" % (_S, _SI), "raw_end_ok(%s, %s)" % (_S, _EI),
+                  "self.region is not None and all(self.region[0] <= %s[i][1].reference_start and %s[i][1].reference_end - 1 <= self.region[1] for i in range(len(%s)))" % (_S, _S, _S)],
+         hints={"entry": ["all(sb(%s, i) == %s[i][1].reference_start // 256 for i in range(len(%s)))" % (_S, _S, _S),
+                          "all(eb(%s, i) == (%s[i][1].reference_end - 1) // 256 for i in range(len(%s)))" % (_S, _S, _S)],
+                "exit": ["all(sb(%s, i) == %s[i][1].reference_start // 256 for i in range(len(%s)))" % (_S, _S, _S),
+                         "all(eb(%s, i) == (%s[i][1].reference_end - 1) // 256 for i in range(len(%s)))" % (_S, _S, _S)]},
+         native=False, timeout=40000, canary="self.counter == old(self.counter)")
 
 
 # reset: one storage object is reused for every read cluster of a chromosome; nothing of the previous cluster may survive
@@ -278,10 +348,14 @@ def _gen_mem(rng, n):
 contract(A + "InMemoryAlignmentStorage.get_alignments", {"self": "rec:InMemoryAlignmentStorage", "region": "opt[tuple[int,int]]"},
          returns=STO, props=["C05"],
          modifies=["self.alignment_start_index", "self.alignment_end_index", "self.index_filled"],
-         requires=["self.region is not None", "sorted_by_start(self.alignment_storage)",
+         requires=["self.region is not None", "0 <= self.region[0] <= self.region[1]", "sorted_by_start(self.alignment_storage)",
                    "all(self.region[0] <= self.alignment_storage[i][1].reference_start and self.alignment_storage[i][1].reference_end - 1 <= self.region[1] "
                    "for i in range(len(self.alignment_storage)))",
-                   "region is None or (self.region[0] <= region[0] <= region[1] <= self.region[1])"],
+                   "region is None or (self.region[0] <= region[0] <= region[1] <= self.region[1])",
+                   # the two indexes are as add_alignment left them, or already completed by an earlier fetch
+                   "index_ok(self.alignment_storage, self.alignment_start_index, self.alignment_end_index, self.region[0] // 256, self.region[1] // 256 + 1) "
+                   "if self.index_filled else raw_ok(self.alignment_storage, self.alignment_start_index, self.alignment_end_index)"],
+         reveal=["sb", "eb"],
          ensures=[
              # without a sub-region: everything, in order
              "not (region is None or region == self.region) or result == self.alignment_storage",
@@ -299,7 +373,10 @@ contract(A + "InMemoryAlignmentStorage.get_alignments", {"self": "rec:InMemoryAl
                             "all(0 <= nhits(region, self.alignment_storage, i) <= nhits(region, self.alignment_storage, i + 1) <= len(_yield) "
                             "for i in range(start_index, start_index + _k1))",
                             "nhits(region, self.alignment_storage, start_index) == 0"]}},
-         hints={"after:end_index": ["nhits_none(region, self.alignment_storage, 0, start_index)",
+         hints={"entry": [  # bridge from the stored records to their (opaque) bins, usable for any index the proof comes up with
+                    "all(sb(self.alignment_storage, i) == self.alignment_storage[i][1].reference_start // 256 for i in range(len(self.alignment_storage)))",
+                    "all(eb(self.alignment_storage, i) == (self.alignment_storage[i][1].reference_end - 1) // 256 for i in range(len(self.alignment_storage)))"],
+                "after:end_index": ["nhits_none(region, self.alignment_storage, 0, start_index)",
                                     "nhits_none(region, self.alignment_storage, end_index, len(self.alignment_storage) - end_index)"]},
          native_args=_mem_args, gen=_gen_mem)
 
